@@ -110,6 +110,37 @@ theorem C39_boundary_data_partial (E : Env) (rd : Rd) (first : Nat) (r1 : Bytes)
     · simp only [hz, if_false]
       constructor <;> first | rfl | trivial | omega
 
+theorem lor_flags (fl len : Nat) (hl : len < 16777216) : fl * 16777216 ||| len = fl * 16777216 + len := by
+  have h := Nat.shiftLeft_add_eq_or_of_lt (a := fl) (i := 24) (b := len) (by omega)
+  rw [Nat.shiftLeft_eq] at h
+  simpa using h.symm
+
+/-- **Reading is a pure function of the bytes, results are values**: the DATA frame the framer wrote is read back
+    with its own payload, the reader then stands at the next frame — whatever follows and whatever was read before
+    (the result does not mention the reader's state).  Iterated over a concatenation of written frames this gives
+    the list of the frames, each with its own bytes; the correspondence run compares all frames of a sequence only
+    after the last one was read and the input was overwritten, so that an implementation returning views into a
+    reused buffer disagrees with this theorem's model. -/
+theorem C39_data_roundtrip (E : Env) (sid flags : Nat) (d rest carry : Bytes)
+    (hs : 0 < sid ∧ sid < 2147483648) (hf : flags < 256) (hd : d.length ≤ 16777215) :
+    ∃ bs, writeFrame E (.data sid flags d) = .ok bs ∧
+      (readFrame E { inp := bs ++ rest, carry := carry }).res = .ok (.data sid flags d) ∧
+      (readFrame E { inp := bs ++ rest, carry := carry }).rd = { inp := rest, carry := carry } := by
+  have h0 : ¬ sid = 0 := by omega
+  have h1 : ¬ (sid ≥ 2147483648 ∨ d.length > 16777215) := by omega
+  refine ⟨be32 sid ++ be32 ((flags * 16777216 ||| d.length) % 4294967296) ++ d,
+    by simp only [writeFrame, h0, h1, if_false], ?_⟩
+  have hw : (flags * 16777216 ||| d.length) % 4294967296 = flags * 16777216 + d.length := by
+    rw [lor_flags flags d.length (by omega)]; omega
+  have hge : ¬ sid ≥ 2147483648 := by omega
+  have hfl : (flags * 16777216 + d.length) / 16777216 = flags := by omega
+  have hln : (flags * 16777216 + d.length) % 16777216 = d.length := by omega
+  have hlt : ¬ (d ++ rest).length < d.length := by simp
+  simp only [readFrame, List.append_assoc, take32_be32 sid (by omega), hw,
+    take32_be32 (flags * 16777216 + d.length) (by omega), hge, if_false, hfl, hln, hlt, h0,
+    List.take_left, List.drop_left]
+  constructor <;> first | rfl | trivial
+
 /-- **No over-read after the fix**: a SYN_STREAM / SYN_REPLY / HEADERS frame whose declared length is smaller than
     its fixed part is rejected before a single payload byte is read (the unfixed code computed `length - 10` on
     `uint32` and let the inflater read ~4 GiB past the frame). -/
